@@ -125,7 +125,6 @@ inductive Member where
   | metaJson (c : TComp)            -- tiles.json / meta.json / metadata.json [.gz|.br]
   | skip                        -- unknown file (warning only)
   | fail                        -- the whole open fails (`?`)
-  | crash                       -- `path_tmp[0]` on an empty path
 deriving Repr, DecidableEq
 
 /-- the three-component case (tar/reader.rs:57-95) after `./` removal -/
@@ -152,7 +151,7 @@ def metaNames : List (String × TComp) :=
 /-- `TarTilesReader::open_path`, one entry (tar/reader.rs:36-125) -/
 def classifyTar (name : List Char) : Member :=
   match pathComponents name with
-  | [] => .crash
+  | [] => .skip                 -- empty path: `first()` is `None`, the joined name is "" (no panic since /repo d07b07ff)
   | p :: ps =>
     let comps := if p = ['.'] then ps else p :: ps
     -- `join("/")` then `split('/')`: an absolute path gives extra empty components
@@ -175,7 +174,8 @@ def parseName (name : List Char) : Option (Nat × Nat × Nat × TileFormat × TC
 
 /-! ## containers as lists of files -/
 
-abbrev File := List Char × Bytes
+/-- a regular file: its name (`none` = not valid UTF-8) and payload -/
+abbrev File := Option (List Char) × Bytes
 
 structure State where
   fmt : Option TileFormat
@@ -190,15 +190,17 @@ def addTile (s : State) (z x y : Nat) (f : TileFormat) (c : TComp) (payload : By
   else .ok ⟨some f, some c, ((x, y, z), payload) :: s.tiles⟩
 
 def tarStep (K : Inflate) (s : State) (file : File) : Outcome State :=
-  match classifyTar file.1 with
-  | .tile z x y f c => addTile s z x y f c file.2
-  | .metaJson c => match K.run c file.2 with
-    | .ok _ => .ok s
-    | .err => .err
-    | .panic => .panic
-  | .skip => .ok s
-  | .fail => .err
-  | .crash => .panic
+  match file.1 with
+  | none => .err                                       -- "file name … is not valid UTF-8"
+  | some name =>
+    match classifyTar name with
+    | .tile z x y f c => addTile s z x y f c file.2
+    | .metaJson c => match K.run c file.2 with
+      | .ok _ => .ok s
+      | .err => .err
+      | .panic => .panic
+    | .skip => .ok s
+    | .fail => .err
 
 def foldFiles (step : State → File → Outcome State) : State → List File → Outcome State
   | s, [] => .ok s
@@ -240,7 +242,10 @@ def cover (r : Reader) : List BBox :=
 /-- one file of a directory tree (directory/reader.rs:96-200): only paths `<u8>/<u32>/<file>` are
     tiles; other names are ignored, except the metadata names at the root -/
 def dirStep (K : Inflate) (s : State) (file : File) : Outcome State :=
-  match splitSlash file.1 with
+  match file.1 with
+  | none => .ok s                                      -- names that are not valid UTF-8 are skipped
+  | some name =>
+  match splitSlash name with
   | [a] =>
     match parseU8 a with
     | some _ => .err                                   -- `fs::read_dir` on a regular file
@@ -277,7 +282,7 @@ def dirStep (K : Inflate) (s : State) (file : File) : Outcome State :=
   | _ => .ok s                                         -- deeper entries are directories inside an x directory: ignored
 
 def sortFiles (l : List File) : List File :=
-  l.mergeSort (fun a b => String.ofList a.1 ≤ String.ofList b.1)
+  l.mergeSort (fun a b => String.ofList (a.1.getD []) ≤ String.ofList (b.1.getD []))
 
 /-- `DirectoryTilesReader::open_path`: the walk order of `read_dir` is unspecified except inside an
     x directory (sorted by file name); the result does not depend on it unless two files claim the
@@ -303,7 +308,7 @@ def dirNames (f : TileFormat) (c : TComp) (tiles : List Tile) : List (List Char)
 
 /-! ## line protocol -/
 
-def bytesToChars (b : Bytes) : List Char := (String.fromUTF8? ⟨b.toArray⟩).map String.toList |>.getD []
+def bytesToChars (b : Bytes) : Option (List Char) := (String.fromUTF8? ⟨b.toArray⟩).map String.toList
 
 def charsToHex (s : List Char) : String := hex (String.ofList s).toUTF8.toList
 
@@ -374,12 +379,13 @@ def handle (stream : String) (args : List String) : String :=
   let r : Option String := match stream, args with
     | "NAM", [n] => do
       let n ← unhex n
-      pure (match classifyTar (bytesToChars n) with
-        | .tile z x y f c => s!"tile {z} {x} {y} {f.name} {c.name}"
-        | .metaJson _ => "skip"
-        | .skip => "skip"
-        | .fail => "err"
-        | .crash => "panic")
+      pure (match bytesToChars n with
+        | none => "err"
+        | some name => match classifyTar name with
+          | .tile z x y f c => s!"tile {z} {x} {y} {f.name} {c.name}"
+          | .metaJson _ => "skip"
+          | .skip => "skip"
+          | .fail => "err")
     | "C16t", rest => do
       let (fs, rest) ← parseFiles rest
       let (qs, _) ← parseQueries rest
